@@ -809,6 +809,21 @@ class PairDict:
         return len(self.pairs) > 0
 
 
+class OptResultV:
+    def __init__(self, x, success):
+        self.x = x
+        self.success = success
+
+    def sym_getattr(self, name, interp):
+        if name == 'x':
+            return self.x
+        if name == 'success':
+            return self.success
+        if name in ('message', 'status', 'nit', 'fun'):
+            return OpaqueStr('minimize.' + name)
+        raise_('AttributeError', name)
+
+
 class FileV:
     """a text file with known (structured) contents"""
 
@@ -1364,7 +1379,30 @@ def np_concatenate(interp, seqs, axis=0, **kw):
     return NDArr(out)
 
 
+def np_size(interp, a, axis=None):
+    d = _asdata(interp, a)
+    sh = NDArr(d).shape if isinstance(d, list) else ()
+    if axis is None:
+        n = 1
+        for k in sh:
+            n *= k
+        return n
+    return sh[_cint(axis)]
+
+
 def np_append(interp, arr, values, axis=None):
+    if axis is not None:
+        ax = _cint(axis)
+        a = _asdata(interp, arr)
+        v = _asdata(interp, values)
+        if ax == 0:
+            return NDArr(_copy_data(a) + _copy_data(v))
+        if ax == 1:
+            if len(a) != len(v):
+                raise_('ValueError', 'all the input array dimensions except '
+                       'for the concatenation axis must match exactly')
+            return NDArr([list(ra) + list(rv) for ra, rv in zip(a, v)])
+        raise Unsupported('np.append axis > 1')
     a = _asdata(interp, arr)
     v = _asdata(interp, values)
     a = _flatten(a) if isinstance(a, list) else [a]
@@ -1488,6 +1526,17 @@ def nd_getitem(interp, arr, idx):
             rows = d[interp._slice(first, len(d))]
             if not rest:
                 return NDArr(rows)
+            if len(rest) == 1 and isinstance(rest[0], (NDArr, list)):
+                mask = _asdata(interp, rest[0])
+                if mask and all(isinstance(e, bool) or (isinstance(e, Sym) and
+                                                        e.kind == 'bool')
+                                for e in mask):
+                    if rows and len(mask) != len(rows[0]):
+                        raise_('IndexError', 'boolean index did not match '
+                               'indexed array')
+                    keep = [k for k, c in enumerate(mask)
+                            if interp.ops.truth(c)]
+                    return NDArr([[r[k] for k in keep] for r in rows])
             out = [_unwrap(nd_getitem(interp, NDArr(r), rest if len(rest) > 1
                                       else rest[0])) for r in rows]
             return NDArr(out)
@@ -1504,6 +1553,9 @@ def nd_getitem(interp, arr, idx):
         if ix and all(isinstance(e, bool) or (isinstance(e, Sym) and
                                               e.kind == 'bool')
                       for e in ix):
+            if len(ix) != len(d):
+                raise_('IndexError', 'boolean index did not match indexed '
+                       'array')
             out = []
             for c, x in zip(ix, d):
                 if interp.ops.truth(c):
@@ -1834,7 +1886,7 @@ def external_modules(interp):
         'min': B('min', np_min), 'amin': B('amin', np_min),
         'mean': B('mean', np_mean),
         'concatenate': B('concatenate', np_concatenate),
-        'append': B('append', np_append),
+        'append': B('append', np_append), 'size': B('size', np_size),
         'atleast_1d': B('atleast_1d', np_atleast_1d),
         'where': B('where', np_where), 'any': B('any', np_any),
         'all': B('all', np_all), 'isnan': B('isnan', np_isnan),
@@ -1868,6 +1920,8 @@ def external_modules(interp):
     })
     E['warnings'] = _mod('warnings', {
         'warn': B('warn', lambda it, *a, **k: it.ctx.event('warn', a[1:])),
+        'filterwarnings': B('filterwarnings', lambda it, *a, **k: None),
+        'simplefilter': B('simplefilter', lambda it, *a, **k: None),
     })
     E['inspect'] = _mod('inspect', {
         'isclass': B('isclass', lambda it, x: isinstance(x, (PyClass,
@@ -1905,7 +1959,26 @@ def external_modules(interp):
         it.ext_calls.append(('curve_fit', f, xdata, ydata))
         return [NDArr([Sym(it.ctx.fresh('curve_fit_p%d' % k, 'real'))
                        for k in range(npar)]), Opaque('pcov')]
-    E['scipy.optimize'] = _mod('scipy.optimize', {'curve_fit': B('curve_fit', curve_fit)})
+    def minimize(it, fun, x0, args=(), **kw):
+        """assumed contract of scipy.optimize.minimize (SLSQP): an arbitrary
+        result object; x has the shape of x0 and respects the bounds it was
+        given; `success` may be False"""
+        n = len(list(it.iterate(x0)))
+        ctx = it.ctx
+        xs = [Sym(ctx.fresh('minimize_x%d' % k, 'real')) for k in range(n)]
+        bounds = kw.get('bounds')
+        if bounds is not None:
+            for x, b in zip(xs, it.iterate(bounds)):
+                lo, hi = list(it.iterate(b))
+                ctx.assume(it.ops.compare(ast.GtE(), x, lo))
+                ctx.assume(it.ops.compare(ast.LtE(), x, hi))
+        succ = Sym(z3.Bool('minimize.success'))
+        res = OptResultV(NDArr(xs), succ)
+        it.ext_calls.append(('minimize', dict(kw, fun=fun, x0=x0, args=args,
+                                              result=res)))
+        return res
+    E['scipy.optimize'] = _mod('scipy.optimize', {'curve_fit': B('curve_fit', curve_fit),
+                                                  'minimize': B('minimize', minimize)})
     E['scipy.integrate'] = _mod('scipy.integrate', {
         'quad': B('quad', lambda it, func, a, b, **kw:
                   (integral_model(it, func, a, b), Fraction(0))),
@@ -1933,6 +2006,7 @@ def external_modules(interp):
         'product': B('product', lambda it, *seqs, **k: _product(it, seqs, k)),
         'chain': B('chain', lambda it, *seqs: [x for s in seqs
                                                for x in it.iterate(s)]),
+        'repeat': B('repeat', lambda it, x, n: [x] * _cint(n)),
     })
     return E
 
